@@ -81,6 +81,9 @@ func main() {
 		}(i)
 	}
 	wg.Wait()
+	ev.Parallel(r.Pick(40, 600), 8, func(i int) {
+		runAnnounce(r, caseID{4, r.Seed*4_000_003 + int64(i)})
+	})
 	for i, n := 0, r.Pick(1, 8); i < n; i++ {
 		runE2E(r, caseID{3, r.Seed*3_000_003 + int64(i)})
 	}
@@ -97,6 +100,8 @@ func main() {
 	r.FloorCount("waiters_answered_with_context_error", int64(r.Pick(300, 4000)))
 	r.FloorCount("barrier_checks", int64(r.Pick(300, 4000)))
 	r.FloorCount("forwarding_cases", int64(r.Pick(40, 520)))
+	r.FloorCount("announcements_checked_by_an_immediate_read", int64(r.Pick(1000, 15000)))
+	r.FloorCount("released_callers_reading_at_once", int64(r.Pick(2000, 30000)))
 	r.FloorCount("e2e_follower_writes_read_back", int64(r.Pick(60, 500)))
 	r.FloorCount("e2e_noop_deletes_of_keys_just_removed_on_leader", int64(r.Pick(8, 100)))
 	r.FloorCount("e2e_writes_after_restart_acked", int64(r.Pick(5, 40)))
